@@ -171,6 +171,30 @@ def check(case, ctx):
             raise Violation("instance-follows-callers-dict", f"built from one dictionary object edited in place ({o1} -> {o2}): instances compare "
                                                              f"{first == second}, built from separate dictionaries {insts[0] == insts[1]}")
         labels.add("same-dict-object-edited-in-place")
+    # what an instance holds is its own: a user (or a sibling member's function) working in place on an evaluated member
+    # changes neither the caller's dictionary nor what the instance was built from
+    if insts[0] is not None:
+        live = copy.deepcopy(o1)
+        obj = dc(live)
+        rep0 = repr(obj)
+        twin = dc(copy.deepcopy(o1))
+        touched = False
+        for nm in ms:
+            v = getattr(obj, nm)
+            if isinstance(v, list):
+                v.append("edited-in-place")
+                touched = True
+            elif isinstance(v, dict):
+                v["edited-in-place"] = 1
+                touched = True
+        if touched:
+            if sem.typed(live) != sem.typed(o1):
+                raise Violation("caller-dict-shared-with-instance", f"editing the container members of DC({o1}) in place changed the caller's dictionary to {live}")
+            if repr(obj) != rep0:
+                raise Violation("instance-options-shared-with-members", f"editing the container members of DC({o1}) in place changed its repr from {rep0} to {repr(obj)}")
+            if (obj == twin) is not True:
+                raise Violation("instance-options-shared-with-members", f"after editing the container members of DC({o1}) in place it no longer equals an instance built from equal options")
+            labels.add("member-edited-in-place")
     nontrivial = False
     if insts[0] is not None and insts[1] is not None:
         r1, r2 = U.restrict(o1, Ks[0]), U.restrict(o2, Ks[1])
@@ -196,7 +220,11 @@ def cases(draw):
         g.defs.append(g.dataset_def(i))
 
     def member(name):
-        kind = draw(st.sampled_from(["flat", "dotted", "dotted", "defaulted", "ds", "expr", "const", "const_ann", "lookalike"]))
+        kind = draw(st.sampled_from(["flat", "dotted", "dotted", "defaulted", "ds", "expr", "const", "const_ann", "lookalike", "section"]))
+        if kind == "section":
+            # a member that is a whole section (a dictionary) or a list
+            return {"name": name, "kind": "node", "node": {"k": "opt", "key": draw(st.sampled_from(["S", "R.U", "L"])), "default": {"t": "const", "v": [1, [2]]}},
+                    "annotated": draw(st.booleans())}
         if kind == "lookalike":
             # a key that extends another reported key as a string without being inside it (A / AB, S.X / S.XY)
             return {"name": name, "kind": "node", "node": {"k": "opt", "key": draw(st.sampled_from(LOOKALIKE))}, "annotated": draw(st.booleans())}
